@@ -228,14 +228,14 @@ func c20Report(c *Ctx) {
 	c.Floor(rule, 8)
 	errorf := p.CallTo("mocks.ErrorReporter.Errorf")
 	want := map[string]int{
-		"mocks.NewAsyncProducer$1":           4,
-		"mocks.SyncProducer.SendMessage":     3,
-		"mocks.SyncProducer.SendMessages":    3,
-		"mocks.SyncProducer.Close":           1,
-		"mocks.Consumer.ConsumePartition":    2,
-		"mocks.Consumer.Topics":              1,
-		"mocks.Consumer.Partitions":          1,
-		"mocks.PartitionConsumer.Close":      3,
+		"mocks.NewAsyncProducer$1":        4,
+		"mocks.SyncProducer.SendMessage":  3,
+		"mocks.SyncProducer.SendMessages": 3,
+		"mocks.SyncProducer.Close":        1,
+		"mocks.Consumer.ConsumePartition": 2,
+		"mocks.Consumer.Topics":           1,
+		"mocks.Consumer.Partitions":       1,
+		"mocks.PartitionConsumer.Close":   3,
 	}
 	got := map[string]int{}
 	for _, fn := range p.Fns {
